@@ -632,6 +632,31 @@ theorem cachedMatrix_refines_spec {ops : BaseOps W V} (hl : Lawful ops) (junk : 
   rw [hn, hcap] at this
   exact this
 
+instance (g : CMG W V) (op : GOp) : Decidable (op.valid g) := by
+  cases op <;> (simp only [GOp.valid]; infer_instance)
+
+/-- executable form of `ValidHist` (used for the non-vacuity examples) -/
+def checkHist (ops : BaseOps W V) (junk : Nat → V) : CMG W V → List GOp → Bool
+  | _, [] => true
+  | g, op :: rest =>
+    decide (op.valid g) &&
+      match step ops junk g op with
+      | some (g', _) => checkHist ops junk g' rest
+      | none => true
+
+theorem validHist_of_check (ops : BaseOps W V) (junk : Nat → V) (hist : List GOp) :
+    ∀ g : CMG W V, checkHist ops junk g hist = true → ValidHist ops junk g hist := by
+  induction hist with
+  | nil => intro _ _; trivial
+  | cons op rest ih =>
+    intro g h
+    simp only [checkHist, Bool.and_eq_true, decide_eq_true_eq] at h
+    refine ⟨h.1, ?_⟩
+    intro g' o hstep
+    have h2 := h.2
+    rw [hstep] at h2
+    exact ih g' h2
+
 /-- the guards cannot be dropped — capacity: a request longer than the capacity makes
 `ensureFreeMemory` run out of lines to evict (C++: `m_lruList.back()` of an empty list) while memory is
 still missing; the model stops with the request unsatisfied -/
@@ -975,6 +1000,24 @@ open SharkVerif.C09.G in
 example : (G.run (regularizedOps (V := Int)) (fun _ => -1)
       (CMG.init 3 (Regularized.init (fun a b => (a * 10 + b : Nat)) (fun a => (100 * (a + 1) : Nat))) 4) demoHist).isSome = true := by
   decide
+
+/-- … and it meets every guard, so `cached_regularized_refines` applies to it -/
+example : G.ValidHist (regularizedOps (V := Int)) (fun _ => -1)
+    (SharkVerif.Cache.CMG.init 3 (Regularized.init (fun a b => (a * 10 + b : Nat)) (fun a => (100 * (a + 1) : Nat))) 4) demoHist :=
+  G.validHist_of_check _ _ _ _ (by decide)
+
+/-- the premises of `smo_three_rows_valid` are satisfiable: three rows of length 2 under capacity 6 -/
+example :
+    (match SharkVerif.Cache.CMG.row (kernelOps (V := Int)) (fun _ => -1) (SharkVerif.Cache.CMG.init 3 (Kernel.init fun a b => (a * 10 + b : Nat)) 6) 0 0 2 with
+     | some g1 =>
+       match SharkVerif.Cache.CMG.row kernelOps (fun _ => -1) g1 1 0 2 with
+       | some g2 =>
+         decide ((g1.cache.core.lines 0).length + 2 ≤ g1.cache.core.maxSize ∧
+           (g2.cache.core.lines 0).length + (g2.cache.core.lines 1).length + 2 ≤ g2.cache.core.maxSize ∧
+           g2.cache.bufferOf 0 = 1 ∧ g2.cache.bufferOf 1 = 2) &&
+         (SharkVerif.Cache.CMG.row kernelOps (fun _ => -1) g2 2 0 2).isSome
+       | none => false
+     | none => false) = true := by decide
 
 example : (flips Gaussian.flip (Gaussian.init (fun a b => ((a + 1) * (b + 1) : Int)) id) [(0, 2)]).entry 0 1 = 1 := by
   decide
